@@ -7,7 +7,7 @@ harness -> corpus -> op-sequence correspondence (model vs implementation, origin
 through dense->sparse and sparse->dense switches) -> white-box Inv check -> Go-export fast path
 -> sort sweep -> Array.prototype method sweep (metamorphic against a slow array-like).
 """
-import json, os, random, subprocess, sys
+import json, os, random, subprocess, sys, time
 from concurrent.futures import ThreadPoolExecutor
 from vlib import *
 
@@ -155,6 +155,10 @@ def run_sharded(ctx, exe, lines, shards=12, timeout=1500):
     res = [None] * len(lines)
     for s, o in enumerate(outs):
         for j, l in enumerate(o):
+            # the harness' own per-case interrupt ("timeout") is a slow machine, not a verdict
+            if l and l.startswith("ERR") and "timeout" in l:
+                INCONCLUSIVE.append(lines[s + j * shards][:300])
+                l = "TIMEOUT"
             res[s + j * shards] = l
     return res
 
@@ -518,7 +522,7 @@ SPECS = [
     [], [1], [1, 2, 3, 4, 5], [1, 2, "_", 4], ["_", "_", 3], [1, "u", 3, "u"], [1, 2, 3, "_", "_"], [3, 1, 2, 2, 1],
     [1, ["acc", 5], 3], [["nc", 1], 2, 3], [1, 2, ["nc", 3]], [["t", 1], ["t", 2], "_", ["t", 3]], ["_", 2, "_", 4, "_", 6, "_"],
 ]
-PROTOS = [[], [[2, 99]], [[0, 99], [3, 99], [4, 98]]]
+PROTOS = [[], [[2, 99]], [[0, 99], [3, 99], [4, 98]], [[2, ["acc", 77]], [3, 99], [5, ["acc", 76]]]]
 KINDS = ["dense", "sparse", "frozen", "nonext", "arraylike", "goslice"]
 GOSLICE_OK = {"indexOf", "lastIndexOf", "includes", "join", "toString", "at", "slice", "concat", "every", "some", "forEach", "map", "filter",
               "reduce", "reduceRight", "find", "findIndex", "findLast", "findLastIndex", "keys", "values", "entries", "flat", "flatMap",
@@ -587,6 +591,8 @@ def check_methods(ctx, env, cases):
             sig = "method-mismatch:%s:%s(%s)" % (c["kind"], c["meth"], c["args"][:30])
             if mutating_args and "valueOf" in c["args"] and c["kind"] in ("dense", "nonext") and c["meth"] in ("lastIndexOf", "fill", "copyWithin", "includes", "indexOf", "toSpliced", "splice", "slice"):
                 sig = "fastpath-stale-length-after-valueOf:" + c["meth"]
+            elif c["meth"] == "splice" and c["kind"] == "dense" and any(isinstance(pr[1], list) for pr in c["proto"]):
+                sig = "splice-fastpath-growth-ignores-inherited-indexed-properties"
             elif c["kind"] in ("frozen", "nonext") and c["meth"] == "splice":
                 sig = "splice-fastpath-adds-elements-to-nonextensible-array"
             if ctx.violation(sig, "%s receiver, %s(%s) [%s]: %s  expected  %s" % (c["kind"], c["meth"], c["args"][:60], bad[0], subj[:160], bad[1][:160]), rep) != "known":
@@ -694,6 +700,9 @@ def run_direct(ctx, env, entry, fn):
     line = entry["line"]
     o = run_one(ctx, env.harness, line)
     ctx.count(1)
+    if o.startswith("ERR") and "timeout" in o:
+        INCONCLUSIVE.append(line[:300])
+        return True
     ok = all(s in o for s in entry.get("expect_contains", [])) and not any(s in o for s in entry.get("expect_absent", []))
     if not ok:
         ctx.violation(entry["signature"], entry["summary"] + " :: observed " + o[:300],
@@ -712,13 +721,27 @@ def main(ctx):
     ctx.stats.update(env.stats)
     thorough = ctx.tier == "thorough"
 
-    ctx.regen()
-    ok, errs = ctx.lake_build(["GojaModel.C07.Props", "GojaModel.C07.PropsElem", "GojaModel.C07.PropsHist", "GojaModel.C07.Tie", "model_c07"])
+    # the extractor package is shared: another property's file may be mid-edit — wait and retry
+    for attempt in range(6):
+        nob, nbr = len(ctx.obligations), len(ctx.broken)
+        if ctx.regen():
+            break
+        detail = ctx.obligations[-1]["detail"] if len(ctx.obligations) > nob else ""
+        if "c07.go" in detail or attempt == 5:
+            break
+        ctx.log("extractor does not build because of another property's file; retrying in 30 s")
+        del ctx.obligations[nob:]
+        del ctx.broken[nbr:]
+        time.sleep(30)
+    ok, errs = ctx.lake_build(["GojaModel.C07.Props", "GojaModel.C07.PropsElem", "GojaModel.C07.PropsHist", "GojaModel.C07.PropsMethods",
+                                "GojaModel.C07.PropsSearch", "GojaModel.C07.PropsBounds", "GojaModel.C07.PropsMerge", "GojaModel.C07.PropsGoSlice", "GojaModel.C07.Tie", "model_c07"])
     # the audits (one `lean` run per module) and the harness build are independent: run them side by side
-    with ThreadPoolExecutor(max_workers=5) as ex:
+    with ThreadPoolExecutor(max_workers=10) as ex:
         futs = []
         if ok:
-            for mod, n in (("GojaModel.C07.Props", 22), ("GojaModel.C07.PropsElem", 13), ("GojaModel.C07.PropsHist", 4), ("GojaModel.C07.Tie", 1)):
+            for mod, n in (("GojaModel.C07.Props", 22), ("GojaModel.C07.PropsElem", 13), ("GojaModel.C07.PropsHist", 4),
+                           ("GojaModel.C07.PropsMethods", 14), ("GojaModel.C07.PropsSearch", 8), ("GojaModel.C07.PropsBounds", 5),
+                           ("GojaModel.C07.PropsMerge", 4), ("GojaModel.C07.PropsGoSlice", 5), ("GojaModel.C07.Tie", 3)):
                 futs.append(ex.submit(ctx.audit, mod, n))
         hf = ex.submit(ctx.go_build)
         for f in futs:
@@ -754,6 +777,19 @@ def main(ctx):
     ctx.log("lean+go built; running %d sequences (x up to 5 variants)" % len(seqs))
     problems = check_seqs(ctx, env, seqs, "seq")
     ctx.log("sequences done")
+    # problems fully explained by the known pop finding (objCount not decremented): gone without the POPs
+    POPSIG = "pop-fastpath-objCount-not-decremented"
+    if ctx.known_signature(POPSIG):
+        rest = []
+        for p in problems:
+            ops_p = [o for o in p["line"][4:].split(";") if o.strip()]
+            if p["kind"] in ("inv", "export") and "POP" in ops_p and \
+                    not seq_fails(ctx, env, p["kind"])([o for o in ops_p if o != "POP"]):
+                ctx.violation(POPSIG, "objCount over-counts after pop (%s): %s" % (p["kind"], p["line"][:200]),
+                              {"kind": "history", "line": p["line"], "observed": p["impl"]})
+            else:
+                rest.append(p)
+        problems = rest
     kinds = {}
     for p in problems:
         kinds[p["kind"]] = kinds.get(p["kind"], 0) + 1
